@@ -103,13 +103,17 @@ def strategy(tier):
             for l in ("1e-200", "1e300", "1e100"):
                 e = ["bin", "*", e, ["num", l]]
             q["value"] = e
-        return {"model": model, "points": pts, "dt": 0.01}
+        hc = None
+        if draw(st.integers(0, 3)) == 0:
+            # a trailing comment made of hash characters only (decoration): its text is empty
+            hc = [draw(st.sampled_from([a["name"] for a in model["assigns"]])), draw(st.sampled_from(["##", "###", "# #", "##########"]))]
+        return {"model": model, "points": pts, "dt": 0.01, "hash_comment": hc}
 
     return _s()
 
 
 def sample_view(case):
-    return {"text": X.render_model(case["model"]), "points": case["points"][:1]}
+    return {"text": model_text(case), "points": case["points"][:1]}
 
 
 def roundtrip(ode):
@@ -162,9 +166,21 @@ def compare_models(ode, ode2, ctx, what="C11"):
             raise Violation(f"{what}:unit-differs", dict(ctx, name=n, before=ua, after=ub))
 
 
+def model_text(case):
+    text = X.render_model(case["model"])
+    hc = case.get("hash_comment")
+    if hc:
+        lines = text.split("\n")
+        for i, line in enumerate(lines):
+            if line.startswith(hc[0] + " = ") and "#" not in line:
+                lines[i] = line + " " + hc[1]
+        text = "\n".join(lines)
+    return text
+
+
 def check_case(case):
     model = case["model"]
-    text = X.render_model(model)
+    text = model_text(case)
     ode = oracle.load_or_skip(text)
     try:
         ode2, saved = roundtrip(ode)
